@@ -144,3 +144,84 @@ pub fn stub_parse_partial<N: lexical_core::FromLexical>(bytes: &[u8]) -> lexical
     }
     Ok((int_from_i128::<N>(v), i))
 }
+
+// ---------------------------------------------------------------------------------------
+// Lexer-side contracts (observed behaviour of lexical-core 0.8, see DESIGN 3.6):
+//   parse::<usize>(text)                     : optional '+', then one or more decimal digits,
+//                                              nothing else => Ok(value); otherwise Err.
+//   parse_partial_with_options::<u64,RADIX>  : optional '+', then the maximal run of digits of
+//                                              the radix (either case): Ok((value, length));
+//                                              no digit: Ok((0,0)) without a sign, Ok((0,1)) after
+//                                              a '+' followed by something, Err(Empty) at the end;
+//                                              Err(Overflow) beyond 64 bits.
+// ---------------------------------------------------------------------------------------
+pub fn stub_parse_len<N: lexical_core::FromLexical>(bytes: &[u8]) -> lexical_core::Result<N> {
+    let mut i = 0;
+    if i < bytes.len() && bytes[i] == b'+' {
+        i += 1;
+    }
+    if i >= bytes.len() {
+        return Err(LexError::Empty(i));
+    }
+    let mut v: i128 = 0;
+    while i < bytes.len() {
+        let c = bytes[i];
+        if !(c >= b'0' && c <= b'9') {
+            return Err(LexError::InvalidDigit(i));
+        }
+        v = v * 10 + (c - b'0') as i128;
+        i += 1;
+    }
+    Ok(int_from_i128::<N>(v))
+}
+
+const RADIX_H: u128 = lexical_core::NumberFormatBuilder::from_radix(16);
+const RADIX_Q: u128 = lexical_core::NumberFormatBuilder::from_radix(8);
+
+pub fn stub_parse_partial_radix<N: lexical_core::FromLexicalWithOptions, const FORMAT: u128>(
+    bytes: &[u8],
+    _options: &N::Options,
+) -> lexical_core::Result<(N, usize)> {
+    let radix: u64 = if FORMAT == RADIX_H {
+        16
+    } else if FORMAT == RADIX_Q {
+        8
+    } else {
+        2
+    };
+    let mut i = 0;
+    let mut sign = false;
+    if i < bytes.len() && bytes[i] == b'+' {
+        sign = true;
+        i += 1;
+    }
+    if i >= bytes.len() {
+        return Err(LexError::Empty(i));
+    }
+    let start = i;
+    let mut v: u64 = 0;
+    while i < bytes.len() {
+        let c = bytes[i];
+        let d = if c >= b'0' && c <= b'9' {
+            (c - b'0') as u64
+        } else if c >= b'a' && c <= b'f' {
+            (c - b'a') as u64 + 10
+        } else if c >= b'A' && c <= b'F' {
+            (c - b'A') as u64 + 10
+        } else {
+            99
+        };
+        if d >= radix {
+            break;
+        }
+        if v > (u64::MAX - d) / radix {
+            return Err(LexError::Overflow(i));
+        }
+        v = v * radix + d;
+        i += 1;
+    }
+    if i == start {
+        return Ok((int_from_i128::<N>(0), if sign { 1 } else { 0 }));
+    }
+    Ok((int_from_i128::<N>(v as i128), i))
+}
